@@ -6,7 +6,7 @@
    This file contains only statements closed by `exact`, their assumptions and non-vacuity examples.
    Generated once by tools/genprops.py from the proved lemmas (statements restated verbatim). *)
 From Coq Require Import List NArith ZArith Bool Lia.
-From Viv Require Import Base.Assoc Base.Tree Model.Paths Model.Wire Proofs.Paths_proofs Proofs.Wire_proofs Model.Views Proofs.Views_proofs.
+From Viv Require Import Base.Assoc Base.Tree Model.Paths Model.Wire Proofs.Paths_proofs Proofs.Wire_proofs Model.Views Proofs.Views_proofs Model.Steps Model.Struct Proofs.StructViews_proofs.
 Import ListNotations.
 
 (* the states dict has exactly one entry per declared port, in schema order, nothing else *)
@@ -89,6 +89,42 @@ Theorem C07_rebuild_after_all_layers_refuted :
                  {| vs := 0; vcache := 0 |})) = true.
 Proof. exact @rebuild_after_all_layers_refuted. Qed.
 Print Assumptions C07_rebuild_after_all_layers_refuted.
+
+(* the structural model discharges the premise of the view rule: an update of Model/Struct.v that does not report view_expire (plain value updates only) leaves the node structure - which node sits where - exactly as it was *)
+Theorem C07_apply_ops_no_expire_skel :
+  forall (mk_child : N -> cnode * N) (D : Type) (build : D -> N -> cnode * N)
+           (copy_procs : cnode -> N -> cnode * N) (vr : variant) (t : cnode) 
+           (here : list key) (ops : list (sop D)) (uid : N) (t' : cnode) 
+           (rp : reports) (uid' : N),
+         apply_ops mk_child D build copy_procs vr t here ops uid = Ok (t', rp, uid') ->
+         r_expire rp = false -> skel t' = skel t.
+Proof. exact @apply_ops_no_expire_skel. Qed.
+Print Assumptions C07_apply_ops_no_expire_skel.
+
+(* ... as Engine.apply_update (an update that raises applies nothing) *)
+Theorem C07_sapp_reports :
+  forall (mk_child : N -> cnode * N) (D : Type) (build : D -> N -> cnode * N)
+           (copy_procs : cnode -> N -> cnode * N) (vr : variant) (s : sstate) 
+           (u : supd D),
+         snd (sapp mk_child D build copy_procs vr s u) = false ->
+         srefs (fst (sapp mk_child D build copy_procs vr s u)) = srefs s.
+Proof. exact @sapp_reports. Qed.
+Print Assumptions C07_sapp_reports.
+
+(* THE VIEW IS ALWAYS CURRENT, on the structural model: through any run in which processes and steps issue _add / _delete / _move / _generate / _divide and value updates, every invocation reads views built from the node structure as it is at that moment *)
+Theorem C07_struct_views_always_current :
+  forall (mk_child : N -> cnode * N) (D : Type) (build : D -> N -> cnode * N)
+           (copy_procs : cnode -> N -> cnode * N) (vr : variant)
+           (passes : list
+                       (list (step_fn sstate (supd D) (list (list key * N))) *
+                        list (list (step_fn sstate (supd D) (list (list key * N))))))
+           (st st' : vst sstate (list (list key * N))) (ev : list (vev (list (list key * N)))),
+         Inv sstate (list (list key * N)) srefs st ->
+         run_passes sstate (supd D) (list (list key * N)) srefs (sapp mk_child D build copy_procs vr)
+           vcur passes st = (st', ev) ->
+         Inv sstate (list (list key * N)) srefs st' /\ Forall (ev_ok (list (list key * N))) ev.
+Proof. exact @struct_views_always_current. Qed.
+Print Assumptions C07_struct_views_always_current.
 
 
 (* the premise of views_always_current is satisfiable, and the current rule leaves nothing stale on the schedules of the refutations *)
